@@ -1,7 +1,6 @@
 (* FrA_tcp_gate_proofs.v — C07, loop level, socket framer: every element of the delivery list of
-   a receive call is either justified by an MBAP frame (spec ADU with a consistent length field)
-   lying in buffer ++ chunk, or is the product of the _process(error=True) branch: its "PDU" is
-   the raw 1..7-byte remainder of the buffer (open finding).  From ANY state, any input. *)
+   a receive call is justified by an MBAP frame (spec ADU with a consistent length field) lying
+   in buffer ++ chunk.  From ANY state, any input.  (Since repair 9 there is no error path.) *)
 From PM.theories Require Import Base Expr Struct FrBaseA FrTcp FrSpecA.
 From PM.Generated Require Import GenFramerA.
 From PM.proofs Require Import Struct_proofs FrA_stream_proofs FrA_tcp_proofs.
@@ -14,16 +13,10 @@ Definition tcp_justified (buf : bytes) (d : delivery) : Prop :=
   (1 <= length (d_pdu d))%nat /\
   exists pre post, buf = pre ++ spec_adu_tcp (d_tid d) (d_pid d) (d_uid d) (d_pdu d) ++ post.
 
-Definition tcp_errpath (buf : bytes) (d : delivery) : Prop :=
-  (1 <= length (d_pdu d) <= 7)%nat /\ exists pre, buf = pre ++ d_pdu d.
-
-Definition tcp_ok (buf : bytes) (d : delivery) : Prop := tcp_justified buf d \/ tcp_errpath buf d.
-
-Lemma tcp_ok_lift p l d : tcp_ok l d -> tcp_ok (p ++ l) d.
+Lemma tcp_ok_lift p l d : tcp_justified l d -> tcp_justified (p ++ l) d.
 Proof.
-  intros [(H1 & pre & post & ->)|(H1 & pre & ->)]; [left|right]; (split; [exact H1|]).
-  - exists (p ++ pre), post. now rewrite app_assoc.
-  - exists (p ++ pre). now rewrite app_assoc.
+  intros (H1 & pre & post & ->). split; [exact H1|].
+  exists (p ++ pre), post. now rewrite app_assoc.
 Qed.
 
 Lemma wfb_app a b : wfb (a ++ b) = wfb a && wfb b.
@@ -57,7 +50,7 @@ Proof. destruct fuel; cbn; intros H; injection H as _ <- _; reflexivity. Qed.
 Theorem tcp_loop_gate dec units single : forall fuel st st' ds o,
   wfb (t_buf st) = true ->
   t_loop base tcp dec fuel units single st = (st', ds, o) ->
-  Forall (tcp_ok (t_buf st)) ds.
+  Forall (tcp_justified (t_buf st)) ds.
 Proof.
   induction fuel as [|fuel IH]; intros st st' ds o Hw H.
   - cbn in H. injection H as _ <- _. constructor.
@@ -77,7 +70,7 @@ Proof.
            assert (HL7 : length (firstn 7 (t_buf st)) = 7%nat).
            { apply firstn_length_le. rewrite ready_eq in Hr. lia. }
            constructor.
-           ++ left. unfold tcp_justified. rewrite deliv_eq. cbn [d_pdu d_tid d_pid d_uid]. split; [lia|].
+           ++ unfold tcp_justified. rewrite deliv_eq. cbn [d_pdu d_tid d_pid d_uid]. split; [lia|].
               exists [], (t_buf (t_advance tcp st1)). cbn [app].
               rewrite spec_adu_tcp_mbap.
               replace (Z.of_nat (length (t_getframe tcp st1)) + 1) with (h_len (t_hdr st1)) by lia.
@@ -85,24 +78,21 @@ Proof.
               rewrite <- app_assoc. exact Hsplit.
            ++ specialize (IH _ _ _ _ (proj2 Hw7) Er). eapply Forall_impl; [|exact IH].
               intros d0 Hd0. rewrite Hsplit, !app_assoc. apply tcp_ok_lift, Hd0.
-        -- rewrite reset_eq in H. apply loop_nil in H. subst ds. constructor.
+        -- (* unit not served: advanceFrame *)
+           assert (Hwa : wfb (t_buf (t_advance tcp st1)) = true).
+           { rewrite Hsplit, !wfb_app in Hw. apply andb_true_iff in Hw as [_ Hrest]. apply andb_true_iff in Hrest as [_ Hadv]. exact Hadv. }
+           specialize (IH _ _ _ _ Hwa H). eapply Forall_impl; [|exact IH].
+           intros d0 Hd0. rewrite Hsplit, !app_assoc. apply tcp_ok_lift, Hd0.
         -- injection H as _ <- _. constructor.
       * destruct (beval (tenv tcp st1) (t_wait tcp)); [injection H as _ <- _; constructor|].
         rewrite reset_eq in H. apply loop_nil in H. subst ds. constructor.
-    + (* not ready: the error path *)
-      destruct ((0 <? Z.of_nat (length (t_buf st))) && beval (tenv tcp st) (t_errguard tcp)) eqn:Hg;
-        [|injection H as _ <- _; constructor].
-      unfold t_process in H. cbv beta iota zeta in H. destruct (dec (t_buf st)) as [fc| |x]; try (injection H as _ <- _; constructor).
-      destruct (true && beval _ (t_errfc tcp)); [injection H as _ <- _; constructor|].
-      injection H as _ <- _. constructor; [|constructor].
-      right. unfold tcp_errpath. rewrite deliv_eq. cbn [d_pdu]. rewrite ready_eq in Hr. apply andb_true_iff in Hg as [Hg _].
-      split; [lia|]. exists []. reflexivity.
+    + injection H as _ <- _. constructor.
 Qed.
 
 Theorem tcp_recv_gate dec c st chunk st' ds o :
   wfb (t_buf st) = true -> wfb chunk = true ->
   t_recv base tcp dec c st chunk = (st', ds, o) ->
-  Forall (tcp_ok (t_buf st ++ chunk)) ds.
+  Forall (tcp_justified (t_buf st ++ chunk)) ds.
 Proof.
   unfold t_recv. intros H1 H2 H. eapply tcp_loop_gate in H; [exact H|].
   cbn [t_buf]. rewrite wfb_app, H1, H2. reflexivity.
